@@ -2,7 +2,7 @@
 an independent conformance oracle and a structural normaliser.
 
 A term is a tuple:
-  ("none",) ("prim", name) ("enum", name) ("literal", key) ("any",) ("missing",) ("callable",) ("protocol",)
+  ("none",) ("prim", name) ("enum", name) ("literal", key) ("any",) ("missing",) ("callable",) ("protocol",) ("dataprotocol",)
   ("state", name) ("generic", name, [terms]) ("self",)
   ("seq", t) ("set", t) ("frozenset", t) ("map", k, v) ("tuple", [t...]) ("vtuple", t) ("union", [t...]) ("optional", t)
   ("alias", name) ("palias", name, [terms])
@@ -51,6 +51,18 @@ class NotRunner:
     def walk(self) -> int:
         return 0
 
+@runtime_checkable
+class Named(Protocol):
+    name: str
+
+class Thing:
+    """conforms to Named only when it was given a name: conformance is a matter of the instance, not of its class"""
+    def __init__(self, name=None):
+        if name is not None:
+            self.name = name
+    def __repr__(self):
+        return f"Thing({getattr(self, 'name', None)!r})"
+
 class Inner(State):
     x: int
 
@@ -96,7 +108,7 @@ PALIASES: dict[str, tuple[list[str], Any]] = {
 }
 GENERICS = {"Box": ["v"], "Pair2": ["first", "second"], "Num": ["n"]}
 HASHABLE_LEAVES = [("prim", p) for p in ("bool", "int", "float", "str", "bytes", "UUID", "date", "Path")] + [("enum", "Color"), ("enum", "Level"), ("literal", "L1"), ("literal", "L2"), ("none",)]
-LEAVES = [("prim", p) for p in PRIMS] + [("none",), ("enum", "Color"), ("enum", "Level"), *[("literal", k) for k in LITERALS], ("any",), ("missing",), ("callable",), ("protocol",),
+LEAVES = [("prim", p) for p in PRIMS] + [("none",), ("enum", "Color"), ("enum", "Level"), *[("literal", k) for k in LITERALS], ("any",), ("missing",), ("callable",), ("protocol",), ("dataprotocol",),
           ("state", "Inner"), ("state", "Leaf"), ("state", "Box"), ("alias", "IntOrStr"), ("alias", "Names"), ("alias", "OptInner")]
 
 
@@ -198,6 +210,8 @@ def render(term: Any) -> str:
         return "Callable[[int], str]"
     if k == "protocol":
         return "Runner"
+    if k == "dataprotocol":
+        return "Named"
     if k == "state":
         return term[1]
     if k == "self":
@@ -321,6 +335,8 @@ def conforming(N: Namespace, term: Any, rng: random.Random, depth: int = 0) -> A
         return rng.choice([len, lambda x: str(x), str, ns["RunnerImpl"]().run, ns["RunnerImpl"]])
     if k == "protocol":
         return ns["RunnerImpl"]()
+    if k == "dataprotocol":
+        return ns["Thing"](rng.choice(["a", "b", "named"]))
     if k == "state":
         if t[1] == "Inner":
             return rng.choice([ns["Inner"](x=rng.randint(0, 9)), ns["InnerSub"](x=1, y="z")]) if rng.random() < 0.5 else ns["Inner"](x=rng.randint(0, 9))
@@ -397,7 +413,7 @@ def battery(N: Namespace, problems: list[str] | None = None) -> list[Any]:
     out: list[Any] = [
         object(), 0, 1, True, False, 2, 1.5, 1.0, "s", "ab", "x", "a", b"b", b"k", None, N.MISSING, (), [], {}, set(), frozenset(), (1,), [1], {"ab": 1}, {1: "a"}, {"k"},
         uuid.UUID(int=5), datetime.date(2020, 1, 1), datetime.datetime(2020, 1, 1), datetime.time(1, 2), datetime.timedelta(1), datetime.timezone.utc, pathlib.Path("p"),
-        ns["Color"].RED, ns["Level"].LOW, len, ns["RunnerImpl"](), ns["NotRunner"](), 3 + 4j, range(3), ("a", 1), (1, "a"), [None], (None,), {"k": None}, 3,
+        ns["Color"].RED, ns["Level"].LOW, len, ns["RunnerImpl"](), ns["NotRunner"](), ns["Thing"](), ns["Thing"]("t"), 3 + 4j, range(3), ("a", 1), (1, "a"), [None], (None,), {"k": None}, 3,
         "1", "2", "0", "k", "True", "None", b"x", b"a", "RED", "Color.RED", 1.0000001, -1, "y ", ["x"], ("x",),
     ]
     makers = [
@@ -451,6 +467,8 @@ def conforms(N: Namespace, term: Any, v: Any) -> bool | None:
         return callable(v)
     if k == "protocol":
         return isinstance(v, ns["Runner"])
+    if k == "dataprotocol":
+        return isinstance(v, ns["Named"])
     if k == "state":
         return isinstance(v, ns[t[1]])
     if k == "generic":
